@@ -29,3 +29,41 @@ Proof. exact asm_monitor_erase. Qed.
 Print Assumptions C03_asm_monitor_erase.
 Example C03_nonvacuous : decode_asm [16; 7; 1; 0] [0; 0] [] = DErr /\ decode_portable [16; 7; 1; 0] [0; 0] [] = DErr.
 Proof. vm_compute. split; reflexivity. Qed.
+
+(* ==== the portable decoder AS TRANSLATED from internal/lz4block/decode_other.go on this run ====
+   GenDecodeBody.v is regenerated from the Go source by gen/body.go (statement by statement, over the Go
+   semantics of GoT.v: slice bounds checks, copy, the recover idiom).  For every byte source, every
+   destination (any length, any prior contents, any spare capacity behind it), every dictionary, every prior
+   frame contents and enough fuel: the translated decodeBlock returns — no escaping panic, no hang —
+   hasError (-2) or a count 0 <= n <= len(dst); the destination's array keeps its length, nothing beyond
+   len(dst) is written, src and dict are not written *)
+From LZ4V Require Import GoT GenDecodeBody GenDecodeBodyProofs GenDecodeBodyCorollaries.
+Theorem C03_portable_translated : forall src dst0 dict src_spare dst_spare dict_spare s0 fuel,
+  bytes src -> sized src dst0 dict -> (length src + 65 <= fuel)%nat ->
+  exists s', run_decodeBlock fuel dst0 dst_spare src src_spare dict dict_spare s0 = Ret s'
+    /\ (decodeBlock_ret s' = -2 \/ 0 <= decodeBlock_ret s' <= len dst0)
+    /\ length (mem_decodeBlock_dst s') = length (dst0 ++ dst_spare)
+    /\ skipn (length dst0) (mem_decodeBlock_dst s') = dst_spare
+    /\ mem_decodeBlock_src s' = src ++ src_spare /\ mem_decodeBlock_dict s' = dict ++ dict_spare.
+Proof. exact C03_translated. Qed.
+Print Assumptions C03_portable_translated.
+Theorem C03_portable_translated_no_panic_no_hang : forall src dst0 dict src_spare dst_spare dict_spare s0 fuel,
+  bytes src -> sized src dst0 dict -> (length src + 65 <= fuel)%nat ->
+  (forall s, run_decodeBlock fuel dst0 dst_spare src src_spare dict dict_spare s0 <> Pan s) /\
+  run_decodeBlock fuel dst0 dst_spare src src_spare dict dict_spare s0 <> Hang.
+Proof. exact C03_translated_no_panic_no_hang. Qed.
+Print Assumptions C03_portable_translated_no_panic_no_hang.
+(* and it is the hand-written model, result and destination contents (junk beyond n included) *)
+Theorem C03_portable_translated_refines : forall (src dst0 dict src_spare dst_spare dict_spare : list Z) (s0 : state) (fuel : nat),
+  bytes src -> len src < 2^62 -> len dst0 < 2^62 -> len dict < 2^62 ->
+  (length src + 65 <= fuel)%nat ->
+  exists s', lz4block_decodeBlock fuel (init_lz4block_decodeBlock_fresh dst0 dst_spare src src_spare dict dict_spare s0) = Ret s'
+    /\ match decode_portable src dst0 dict with
+       | DOk n d => decodeBlock_ret s' = n /\ firstn (length dst0) (mem_decodeBlock_dst s') = d
+       | DErr => decodeBlock_ret s' = -2
+       end
+    /\ length (mem_decodeBlock_dst s') = (length dst0 + length dst_spare)%nat
+    /\ skipn (length dst0) (mem_decodeBlock_dst s') = dst_spare
+    /\ mem_decodeBlock_src s' = src ++ src_spare /\ mem_decodeBlock_dict s' = dict ++ dict_spare.
+Proof. exact decodeBlock_refines_fuel. Qed.
+Print Assumptions C03_portable_translated_refines.
